@@ -225,6 +225,7 @@ def run(res: Results, idx: Index, tier: str) -> None:
         else:
             res.violation("R-C04d", f"{mod.rel}:{c.lineno}", key, f"scope `{sc.id}` is not a single SymbolicScope created once (defs: {len(defs)}, created in a loop: {in_loop})", fi.qualname)
 
+    rule_f(res, idx)
     # ---- R-C04e: two symbols are never assumed equal outside the dimension lowering either
     # (decided by their own properties' rules; re-decided here because they are C04's clause "equal/unequal symbols")
     if not getattr(res, "_nested_xref", False):
@@ -259,3 +260,67 @@ def _must_pass_after(g, add_call: ast.AST, recs: List[ast.AST]) -> bool:
     r = g.reachable(src_nodes, removed_nodes=via)
     before = all(r_.lineno < add_call.lineno for r_ in recs)
     return g.EXIT not in r or before
+
+
+# ---------------------------------------------------------------------------------------------- R-C04f
+def rule_f(res: Results, idx: Index) -> None:
+    """A symbolic dimension is materialised as Shape(origin.value)[origin.axis], where `origin` is looked up per
+    dimension.  The Shape has to be taken of *that* dimension's origin: a Shape value created once under an
+    `if cache is None:` latch that lives across the iterations of the dimension loop is the first dimension's origin and is
+    then indexed with another dimension's axis (two symbols B, N read from one tensor)."""
+    res.rule("R-C04f", "the tensor a symbolic dimension is read from is the Shape of that dimension's own origin, never a cross-iteration cached one", floor=2)
+    n = 0
+    for m in idx.product_modules():
+        if "/plugins/" not in m.rel and "lower_dimexpr" not in m.rel:
+            continue
+        for fi in m.funcs.values():
+            du = None
+            origins = [st for st in walk_no_nested(fi.node) if isinstance(st, ast.Assign) and len(st.targets) == 1 and isinstance(st.targets[0], ast.Name)
+                       and isinstance(st.value, ast.Call) and ("origin" in (call_name(st.value) or "").lower()) and "origin" in st.targets[0].id.lower()]
+            for ost in origins:
+                oname = ost.targets[0].id  # type: ignore[union-attr]
+                loop = next((p for p in _parents(ost) if isinstance(p, (ast.For, ast.While))), None)
+                if loop is None:
+                    continue
+                du = du or defuse(fi.node)
+                # names carrying origin.value in this iteration
+                carriers = {oname}
+                for st in ast.walk(loop):
+                    if isinstance(st, ast.Assign) and len(st.targets) == 1 and isinstance(st.targets[0], ast.Name) and isinstance(st.value, ast.Attribute) and st.value.attr == "value" and isinstance(st.value.value, ast.Name) and st.value.value.id == oname:
+                        carriers.add(st.targets[0].id)
+                shape_calls = []
+                for c in ast.walk(loop):
+                    if isinstance(c, ast.Call) and ("shape" in (call_name(c) or "").lower()) and any((isinstance(a, ast.Name) and a.id in carriers and a.id != oname) or (isinstance(a, ast.Attribute) and a.attr == "value" and isinstance(a.value, ast.Name) and a.value.id == oname) for a in c.args):
+                        shape_calls.append(c)
+                for c in shape_calls:
+                    n += 1
+                    key = f"{m.rel}::{fi.qualname}::shape-of-origin::{(call_name(c) or '').split('.')[-1]}"
+                    site = f"{m.rel}:{c.lineno}"
+                    latch = None
+                    for p in _parents(c):
+                        if p is loop:
+                            break
+                        if isinstance(p, ast.If):
+                            for cmp in [x for x in ast.walk(p.test) if isinstance(x, ast.Compare) and len(x.ops) == 1 and isinstance(x.ops[0], ast.Is) and isinstance(x.comparators[0], ast.Constant) and x.comparators[0].value is None and isinstance(x.left, ast.Name)]:
+                                nm = cmp.left.id
+                                outside = [d for d in du.defs.get(nm, []) if d.kind == "assign" and not any(q is loop for q in _parents(d.stmt))]
+                                inside = [d for d in du.defs.get(nm, []) if any(q is loop for q in _parents(d.stmt))]
+                                if outside and inside and c in list(ast.walk(p)) and any(_in_body(c, p.body) for _ in (0,)):
+                                    latch = nm
+                    if latch:
+                        res.violation("R-C04f", site, key, f"`{src(c, 50)}` is only executed while `{latch}` is None, and `{latch}` is initialised before the loop over the dimensions: the Shape of the FIRST symbolic dimension's origin is reused for every later dimension, so another symbol's axis is read from the wrong tensor", fi.qualname)
+                    else:
+                        res.ok("R-C04f", site, key, "the Shape is taken of the current dimension's origin in every iteration (or through a cache keyed by the origin value)", fi.qualname)
+    res.analysed["shape_of_origin_sites"] = n
+
+
+def _parents(n: ast.AST):
+    cur = getattr(n, "parent", None)
+    while cur is not None:
+        yield cur
+        cur = getattr(cur, "parent", None)
+
+
+def _in_body(n: ast.AST, body) -> bool:
+    ids = {id(x) for st in body for x in ast.walk(st)}
+    return id(n) in ids
